@@ -37,7 +37,8 @@ def expect_witness(cid, fl):
         return "err"
     if cid in ("w-num5", "w-num6", "w-num7", "w-num8", "w-num9", "w-num10", "w-num11", "w-num12", "w-num13", "w-num14"):
         return "err"
-    if cid in ("w-jv-2", "w-jv-5", "w-jv-6", "w-jvp-2", "w-jvp-5", "w-jvp-6", "w-raw-bad"):   # invalid Marshaler output
+    if cid in ("w-jv-2", "w-jv-5", "w-jv-6", "w-jvp-2", "w-jvp-5", "w-jvp-6", "w-raw-bad", "w-raw-dense0", "w-raw-dense1", "w-raw-dense2",
+               "w-raw-dense3", "w-raw-dense4", "w-raw-dense5", "w-raw-dense7", "w-raw-dense8", "w-raw-dense9"):   # invalid Marshaler output
         if fl & B["NoValidateJSONMarshaler"] and not fl & B["CompactMarshaler"]:
             return None
         return "err"
@@ -108,8 +109,12 @@ def one_round(ctx, d, hb, mexe, n, extra, known, st, dist, viol, seen_known, dis
                 st["wellformed_checked"] += 1
                 if valid != "1":
                     exempt = "methods" in feats and ((fl & B["NoQuoteTextMarshaler"]) or (fl & B["NoValidateJSONMarshaler"] and not fl & B["CompactMarshaler"]))
+                    loose = ("marshaler-loose-string" in feats and not fl & B["CompactMarshaler"] and not fl & B["NoValidateJSONMarshaler"]
+                             and "KF-C04-native-validator-strings" in known)
                     if exempt:
                         st["wellformed_exempt"] += 1
+                    elif loose:
+                        seen_known.setdefault("KF-C04-native-validator-strings", cid)
                     else:
                         viol.append(("wellformed", cid, "successful Marshal (%s, option word %d) returned text that is not one well-formed JSON value: %s" % (backend, fl, L.show(r)), payload))
                 # round trip
